@@ -35,6 +35,15 @@ CHECKS = {
    note=CTE_NOTE + ' Inference oracle reports only definite failures (Kotlin: type parameter occurring in no constructor '
         'parameter and no expected type; synthesised type not below the recorded one); Java additionally by javac.',
    technique='stateless choice-tree exploration + exhaustive powerset of feasible erasure subsets, judged by a reference checker and javac'),
+ 'C04': dict(engine='CTE+inner-DFS+javac', category='model_checking', design_ref='5 C04',
+   text='(A) the overwriting result of every explored execution (deviations in every stage) and (B) for the erased program '
+        'of every base execution the COMPLETE choice tree of TypeOverwriting.transform(): every candidate method x node x type '
+        'parameter x replacement class (pool-building draws with <=1 deviation), each leaf on a fresh copy. Judged: exactly one '
+        'declared-type slot differs; old/new unrelated under R-SUB; message names old type, new type, node; translation '
+        'changes; reference checker reports a new error; javac rejects the Java text; no report => empty diff and identical text.',
+   note=CTE_NOTE + ' javac is the definite judge for Java; for the other languages a mutation the reference checker does not '
+        'reject is counted, not reported, unless the text is unchanged. Inner trees are capped (400 quick / 6000 thorough leaves).',
+   technique='exhaustive choice-tree DFS of the real mutation on explored programs, judged by structural diff, reference relation and javac'),
  'C05': dict(engine='CTE', category='model_checking', design_ref='5 C05',
    text='Same exploration as C01 with the scope rules of the reference checker (own lexical scopes: every name use '
         'resolves, arity, non-final assignment targets, regular classes only) plus unique identifiers per scope, type '
@@ -144,7 +153,7 @@ CHECKS = {
 }
 
 ENGINES = [
- {'name': 'CTE', 'path': 'mc/explore.py', 'serves_properties': ['C01', 'C02', 'C03', 'C05', 'C07', 'C11', 'C13', 'C17', 'C18'],
+ {'name': 'CTE', 'path': 'mc/explore.py', 'serves_properties': ['C01', 'C02', 'C03', 'C04', 'C05', 'C07', 'C11', 'C13', 'C17', 'C18'],
   'kind_free_text': 'stateless deviation-bounded explorer of the choice tree of the real pipeline (ChoiceSource replaces src.utils.random.r)'},
  {'name': 'javac-server', 'path': 'javasrv/CompileServer.java', 'serves_properties': ['C02', 'C14'],
   'kind_free_text': 'warm JVM compiling file sets with javax.tools (structured diagnostics) and com.sun.tools.javac.Main (CLI text)'},
@@ -152,7 +161,7 @@ ENGINES = [
   'kind_free_text': 'enumeration of all digraphs up to 4 (5) vertices'},
  {'name': 'SSE', 'path': 'mc/universe.py', 'serves_properties': ['C06', 'C07', 'C09', 'C10'],
   'kind_free_text': 'small-scope enumeration of class tables (skeleton grammar) and types built through the real constructors'},
- {'name': 'inner-DFS', 'path': 'mc/inner.py', 'serves_properties': ['C08', 'C09'],
+ {'name': 'inner-DFS', 'path': 'mc/inner.py', 'serves_properties': ['C04', 'C08', 'C09'],
   'kind_free_text': 'complete enumeration of the random-choice tree of one helper call'},
  {'name': 'OUT', 'path': 'mc/ref/output_grammar.py', 'serves_properties': ['C14'],
   'kind_free_text': 'generative grammar of javac/kotlinc/groovyc/scalac batch output, exhaustively enumerated'},
